@@ -30,7 +30,10 @@ func VerifC20_NoLeak() {
 	verif.Replace("mosn.io/mosn/pkg/configmanager.tryDump", func() {})
 	verif.Replace("encoding/json.MarshalIndent", func(v interface{}, prefix, indent string) ([]byte, error) { return nil, nil })
 	Reset()
-	k := verif.Str("key", 3)
+	// an inline key is what MOSN itself treats as one (pkg/mtls: the string contains
+	// "-----BEGIN"; PEM decoding skips any text before the header): arbitrary short
+	// preamble, the PEM header, arbitrary content. A file path is not key material.
+	k := verif.Str("key_preamble", verif.Choose("preamble_len", 2)) + "-----BEGIN" + verif.Str("key", 2)
 	n := verif.Param("elems", 1, 2)
 	steps := verif.Param("steps", 3, 4)
 	for i := 0; i < steps; i++ {
